@@ -39,8 +39,29 @@ func verifReady(cases ...bool) bool {
 			n++
 		}
 	}
-	if n > 1 && VerifRacy != nil {
-		VerifRacy("semaphore.acquire")
-	}
 	return n > 0
+}
+
+// VerifPick is asked to resolve an awaited select of which n > 1 cases are
+// ready (the Go runtime would pick one at random); it returns the index of the
+// ready case to take, so that the harness owns the choice.
+var VerifPick func(site string, n int) int
+
+// verifPick returns the 1-based index of the case the harness resolved the
+// select to, or 0 if fewer than two cases are ready or no harness is installed.
+func verifPick(site string, cases ...bool) int {
+	f := VerifPick
+	if f == nil {
+		return 0
+	}
+	var ready []int
+	for i, c := range cases {
+		if c {
+			ready = append(ready, i+1)
+		}
+	}
+	if len(ready) < 2 {
+		return 0
+	}
+	return ready[f(site, len(ready))]
 }
